@@ -16,3 +16,4 @@ import GSV.Props.C06
 import GSV.Props.C07
 import GSV.Props.C11
 import GSV.Props.C09
+import GSV.Props.C01
